@@ -1,6 +1,7 @@
 package props
 
 import (
+	"context"
 	"fmt"
 	"strings"
 	"sync"
@@ -395,6 +396,17 @@ func runC12case(t *vf.T, c c12case) {
 				mu.Unlock()
 				r.res.Discard(bgctx)
 				t.Count("discards", 1)
+			case "discard-cancelled":
+				// a discard whose context has ended before it starts: whatever part of it happened, the
+				// result must remain usable by later Funcs (its outputs recomputed if they are gone)
+				mu.Lock()
+				r.damage()
+				mu.Unlock()
+				cctx, ccancel := context.WithCancel(bgctx)
+				ccancel()
+				r.res.Discard(cctx)
+				t.Count("discards", 1)
+				t.Count("discards_with_an_ended_context", 1)
 			case "kill":
 				if ls.Sys != nil {
 					mu.Lock()
@@ -420,6 +432,14 @@ func runC12case(t *vf.T, c c12case) {
 				mu.Unlock()
 				o := runSpec(ls, sp, args, true, 120*time.Second)
 				switch {
+				case o.TimedOut && o.Stalled:
+					// bounded progress: the Func has not returned and nothing is moving any more (no RPC
+					// other than keepalives for two thirds of the watchdog period, or every goroutine
+					// inside bigslice parked): it waits for something that will never happen
+					mu.Lock()
+					timedOut = true
+					mu.Unlock()
+					violate("derive-hang exec="+ex, fmt.Sprintf("a Func over a result (discarded or lost before: %v) has not returned after 120 s and nothing is in progress: %s", dmg, o.Quiet))
 				case o.TimedOut:
 					mu.Lock()
 					timedOut = true
@@ -571,6 +591,15 @@ func runC12(r *vf.Runner) {
 				d.Nodes = append(d.Nodes, PNode{Op: op, In: []int{0}, Salt: 4})
 			}
 			c := c12case{Conf: conf, Base: base, Ops: []c12op{{Op: "derive", R: 0, Spec: &d}, {Op: "scan", R: 0, K: 3}, {Op: "discard", R: 0}, {Op: "derive", R: 0, Spec: &d}, {Op: "scan", R: 0, K: 2}, {Op: "scan", R: 1}}}
+			r.Case(c, func(t *vf.T) { runC12case(t, c) })
+		}
+	}
+	// a discard whose context has already ended, then reuse by pipelined and redistributing Funcs
+	for _, dop := range []PNode{{Op: "reduce", In: []int{0}, Fold: "sum"}, {Op: "map", In: []int{0}, Out: []string{"int", "int64"}, Src: []int{0, 1}, Salt: 4}} {
+		for _, conf := range []sessConf{localP4, bmk} {
+			base := Spec{Nodes: []PNode{{Op: "const", Shards: 3, Rows: 129, Out: []string{"int", "int64"}, Salt: 3, Mod: 10}, {Op: "filter", In: []int{0}, P: 5, Salt: 2}}}
+			d := Spec{Nodes: []PNode{{Op: "arg", Arg: 0}, dop}}
+			c := c12case{Conf: conf, Base: base, Ops: []c12op{{Op: "discard-cancelled", R: 0}, {Op: "derive", R: 0, Spec: &d}, {Op: "derive", R: 0, Spec: &d, Conc: false}, {Op: "scan", R: 1}}}
 			r.Case(c, func(t *vf.T) { runC12case(t, c) })
 		}
 	}
